@@ -17,7 +17,7 @@ fn any_counts<const M: usize>() -> DenseMatrix<u32, U5> {
     let mut d = DenseMatrix::<u32, U5>::new(M);
     for i in 0..M {
         for j in 0..5 {
-            d[i][j] = nd::u16_() as u32;
+            d[i][j] = nd::u8_in(0, 7) as u32;
         }
     }
     d
@@ -94,10 +94,10 @@ fn commute_body<const M: usize>() {
     let c = any_counts::<M>();
     let cm = CountMatrix::<Dna>::new(c).unwrap();
     // symmetric background on the lattice k/64: bg[A]=bg[T], bg[C]=bg[G], bg[N]=0
-    let a = nd::u8_in(1, 31);
-    let f = [a as f32 / 64.0, (32 - a) as f32 / 64.0, a as f32 / 64.0, (32 - a) as f32 / 64.0, 0.0];
+    let a = nd::u8_in(1, 3);
+    let f = [a as f32 / 8.0, (4 - a) as f32 / 8.0, a as f32 / 8.0, (4 - a) as f32 / 8.0, 0.0];
     let bg = Background::<Dna>::new(GenericArray::from(f)).expect("valid background");
-    let p = (nd::u8_in(0, 32) as f32) / 16.0;
+    let p = (nd::u8_in(0, 3) as f32) / 4.0;
     let left = cm.reverse_complement().to_freq(p).to_scoring(bg.clone());
     let right = cm.to_freq(p).to_scoring(bg.clone()).reverse_complement();
     let mut total0 = 0.0f32;
@@ -151,7 +151,9 @@ harness!(none, 24, c10_involution_m2, involution_body::<2>());
 harness!(none, 24, c10_involution_m3, involution_body::<3>());
 //@ C10 quick 1800 rc involution, frequency and weight matrices, M=2
 harness!(none, 24, c10_involution_freq_m2, involution_freq_body::<2>());
-//@ C10 quick 2400 rc commutes with to_freq/to_scoring/to_weight, symmetric background, M=2
+//@ C10 quick 3600 rc commutes with to_freq/to_scoring/to_weight, symmetric background, M=1 (counts <= 7)
+log_harness!(8, c10_commute_m1, commute_body::<1>());
+//@ C10 thorough 10800 rc commutes with conversions, M=2
 log_harness!(8, c10_commute_m2, commute_body::<2>());
 //@ C10 quick 1800 opposite-strand score identity, M=2, L=5, symbolic matrix and sequence
 harness!(none, 8, c10_strand_m2_l5, strand_body::<2, 5>());
